@@ -399,6 +399,11 @@ static ApiResult execApi(World &w, const Op &op)
     default: res.executed = false; break;
     }
     log.add((uint64_t)op.kind); log.add((uint64_t)res.ret);
+    if(g_alloc.hugeRequest)
+    {
+        run.fail("allocation-not-proportional", apiOpName(op.kind), std::string(apiOpName(op.kind)) + " asked for one allocation of " + std::to_string(g_alloc.hugeRequest) + " bytes (budget " + std::to_string(g_alloc.budget) + ")");
+        g_alloc.hugeRequest = 0;
+    }
     return res;
 }
 
